@@ -37,7 +37,7 @@ def run(ctx):
     em0 = ER.engine_methods(F)
     ubodies = list(em0.values()) + [f for f in F.body_fns() if not f.name.startswith("engine::engine::BRC20ProgEngine::") or (f.kind != "method")]
     ubodies = [f for f in ubodies if not (f.kind in ("method", "fn") and is_private_helper(f) and f.name.startswith("engine::engine::"))]
-    users = [(f, c) for f in ubodies for c in f.calls() if gi and c.target_id == gi.id]
+    users = [(f, c) for f in F.host_units() for c in f.calls() if gi and c.target_id == gi.id and not f.is_cleanup(c.bb)]
     R.ob(len(users) == 1 and users[0][0].name.endswith("add_raw_tx_to_block") and mentions(origin(users[0][0], users[0][1].args[0]), ".gas"), "WIRE", gi.where(),
          "WIRE|get_inscription_byte_len|users", "the inverse helper is used outside the parked-transaction path", sample={"rule": "WIRE", "users": [u[0].name for u in users]})
     # parked tx stores gas = get_gas_limit(len)
